@@ -12,7 +12,7 @@ CHECKS = {
          "bls12_381 group/pairing arithmetic; challenge-recorder hook reports what ChallengeBuilder hashed; forger control (no lie) must be accepted",
          "5 C01, 4.5"),
  "C02": ("algebraic forger over generated (lie, strategy) pairs on pay proofs; oracle: accepted => known openings satisfy the payment statement; explicit double-spend form",
-         "Refutation search over false payment statements (wrong nonce, wrong amount on either balance, out-of-range balance, foreign channel id, replaced close tag, mismatched old/new lock, foreign/tampered token) x forger strategies incl. post-challenge choice of non-response fields, against merchant::Config::allow_payment.",
+         "Refutation search over false payment statements (wrong nonce, wrong amount on either balance, out-of-range balance, foreign channel id, replaced close tag, mismatched old/new lock, foreign/tampered token, no token but curve points outside the subgroup) x forger strategies incl. post-challenge choice of non-response fields, against merchant::Config::allow_payment.",
          "bls12_381 arithmetic; challenge-recorder hook; forger control must be accepted",
          "5 C02, 4.5"),
  "C03": ("model-based history generation (proptest) with a fault alphabet on merchant replies; invariant after every step",
@@ -23,12 +23,12 @@ CHECKS = {
          "Generated honest histories with boundary-seeking amount selectors; every observable balance and every accept/refuse decision is compared with plain integer arithmetic.",
          "i128 arithmetic of the model",
          "5 C04, 4.4"),
- "C05": ("generated 65-byte strings against a SHA3 reference decoder + generated histories with wrong revocation candidates",
-         "Decode acceptance of revocation pairs equals an independent canonical-hash reference; complete_payment refuses every candidate that does not open the accepted proof's commitment (independent Pedersen evaluation), leaves the pending payment unchanged and then accepts the right pair.",
+ "C05": ("generated 65-byte strings against a SHA3 reference decoder + directed search for digests next to the scalar modulus + generated histories with wrong revocation candidates",
+         "Decode acceptance of revocation pairs equals an independent canonical-hash reference, also on digests sharing the modulus's top byte (19 M hashes searched per quick run) and for pairs generated from such secrets; complete_payment refuses every candidate that does not open the accepted proof's commitment (independent Pedersen evaluation), leaves the pending payment unchanged and then accepts the right pair.",
          "sha3 crate; bls12_381 arithmetic",
          "5 C05"),
  "C06": ("metamorphic single-component substitution over generated honest proofs, sessions and closing messages",
-         "Every component of the verification tuple of an accepted establish / pay proof is replaced by fresh and near values; recorded replies are replayed across sessions/channels/merchants; closing messages get one field substituted: all must be rejected.",
+         "Every component of the verification tuple of an accepted establish / pay proof is replaced by fresh and near values (keys and parameter sets also by copies differing in one group element); recorded replies are replayed across sessions/channels/merchants; closing messages get one field substituted: all must be rejected.",
          "SHA3 collision resistance",
          "5 C06"),
  "C07": ("proptest over derivation chains and perturbations; differential against an independent two-pairing evaluation",
@@ -60,7 +60,7 @@ CHECKS = {
          "bls12_381 pairing and group law",
          "5 C13"),
  "C14": ("model-based multi-channel history generation; invariant over the merchant's view (no exact value reuse, no literal secret)",
-         "Necessary condition for unlinkability: no atom of a customer message equals an earlier atom or public element, and no secret of the customer state occurs in a message.",
+         "Necessary condition for unlinkability: no atom of a customer message equals an earlier atom or public element, no group element occurs twice inside one message, and no secret of the customer state occurs in a message; histories include payments that make the hidden balances coincide.",
          "fresh 255-bit values do not collide by chance",
          "5 C14, 8"),
  "C15": ("enumeration of (type, atom, invalid/boundary encoding) + round trips; differential against an independent schema decoder",
